@@ -1001,13 +1001,17 @@ class Columns(Widget, WidgetContainerMixin, WidgetContainerListContentsMixin):
             )
 
         if not data:
-            if size:
-                return SolidCanvas(" ", size[0], (size[1:] + (1,))[0])
-            raise ColumnsError("No data to render")
-
-        canvas = CanvasJoin(data)
-        if size and canvas.cols() < size[0]:
-            canvas.pad_trim_left_right(0, size[0] - canvas.cols())
+            if not size:
+                raise ColumnsError("No data to render")
+            canvas = CompositeCanvas(SolidCanvas(" ", size[0], (size[1:] + (1,))[0]))
+        else:
+            canvas = CanvasJoin(data)
+            if size and canvas.cols() < size[0]:
+                canvas.pad_trim_left_right(0, size[0] - canvas.cols())
+        if len(data) < len(self.contents):
+            # a hidden column is not part of the canvas, but this rendering still depends on it
+            canvas = CompositeCanvas(canvas)
+            canvas.set_depends([w for w, _ in self.contents])
         return canvas
 
     def get_cursor_coords(self, size: tuple[()] | tuple[int] | tuple[int, int]) -> tuple[int, int] | None:
